@@ -1,6 +1,7 @@
 #!/usr/bin/env python3
 """Imports confirmed round-2 seeded changes from a delivery directory into /verif/seeded/<Cxx>_<c|d>/ with meta.json.
-Usage: import_seeds2.py <delivery-root> <confirm-dir> ; the table below is the hand-written description of each seed
+Usage: import_seeds2.py <delivery-root> <confirm-dir> [round] ; round 2 (default) stores <Cxx>_c/_d from table T,
+round 3 stores <Cxx>_e/_f from table T3; the table below is the hand-written description of each seed
 and of what the checker said at first contact (before any rule was added because of it)."""
 import json, os, shutil, sys
 
@@ -48,9 +49,28 @@ T = {
  'C20/b': ('f0c2d01', 'pkg/JsonResource.go ParseJSONRuleset decodes into []*GruleJSON and ranges over the pointers', 'a null element in the top-level JSON array: nil pointer dereference in parseRule, no barrier on the JSON rule path', 'missed', 'LDR-11 JSON null cannot become a dereferenced nil pointer'),
 }
 
+T3 = {
+ 'C02/a': ('7effe7d', 'engine/GruleEngine.go: DEFUNC setup folded into a helper that reuses the BuiltInFunctions object found in the data context and re-points Knowledge and DataContext but not WorkingMemory', 'same data context executed with one knowledge-base instance and later with another; a rule of the later one announces a change with Changed/Forget', 'other-rule', 'INV-7 (of C01) reported it; INV-7 added to C02'),
+ 'C02/b': ('7effe7d', 'ast/ArrayMapSelector.go Clone: IsCloned(e.AstID) instead of IsCloned(e.Expression.AstID): the index expression is cloned twice, the first clone is never registered', 'instance from NewKnowledgeBaseInstance, a non-constant selector expression that also occurs earlier in clone order, value going stale', 'other-rule', 'CLN-7 (of C09) reported it; clone fidelity CLN-1/2/4/7 added to C01, C02, C08, C11'),
+ 'C03/a': ('7effe7d', 'pkg/JsonResource.go ParseJSONRuleset: array streamed with json.Decoder into one reused GruleJSON variable', 'a non-first JSON rule that omits salience after a rule with non-zero salience: it inherits that salience instead of 0', 'missed', 'JSN-8 every JSON rule is decoded into a fresh value'),
+ 'C03/b': ('7effe7d', 'ast/ThenExpressionList.go Execute: loop left once dataContext.IsComplete() (same mechanism as C10_b of round 1)', 'Complete() not last in its action list, or a data context completed by an earlier Execute', 'other-rule', 'OPT-13 / ENG-10 / TRV-1 (of C04, C06, C10) reported it; OPT-13, ENG-10 added to C03'),
+ 'C04/a': ('7effe7d', 'model/GoDataAccessLayer.go: FieldByName replaced by a cached field-index lookup keyed by Type.String()+"."+field', 'two distinct fact struct types with the same package and type name and a same-named field at another index', 'other-rule', 'ASG-3 (of C05) reported it; ASG-3 added to C04'),
+ 'C04/b': ('7effe7d', 'ast/ThenExpressionList.go Execute: loop left once dataContext.IsComplete() (third independent re-invention)', 'Complete() before the last action, or a completed data context reused', 'caught', ''),
+ 'C07/a': ('7effe7d', 'ast/WorkingMemory.go IndexVariables made incremental (re-invention of C01_a / C02_a)', 'knowledge base filled by two BuildRuleFromResource calls; the later resource adds expressions over variables the earlier one used', 'other-rule', 'INV-5 (of C01/C02) reported it; INV-5, INV-10, INV-13 added to C07'),
+ 'C07/b': ('7effe7d', 'ast/KnowledgeBase.go RemoveRuleEntry (both) + new WorkingMemory.RemoveExpression: the removed rule\'s when tree is deleted from the registry although shared with surviving rules', 'sibling with a common sub-expression removed, then the instance executed again with new facts or another resource built', 'other-rule', 'INV-13 (of C01/C02/C08/C11) reported it; INV-13 added to C07'),
+ 'C09/a': ('7effe7d', 'ast/Expression.go Clone: Negated copied only in the branch that clones the bracketed operand, not when it comes from the clone table', '!(X) whose operand X also occurs elsewhere and is cloned earlier: NewKnowledgeBaseInstance fails with "the clone is not identical"', 'missed', 'CLN-1: semantic scalars are copied on every path through Clone'),
+ 'C09/b': ('7effe7d', 'model/DataAccessLayer.go StrMatchRegexPattern: compiled patterns cached in an unlocked package-level map', 'two goroutines executing rules that use MatchString at the same moment: concurrent map writes', 'caught', ''),
+ 'C11/a': ('7effe7d', 'ast/ArgumentList.go Clone: IsCloned(e.AstID) instead of the argument\'s id (same slip as C02_e in another Clone)', 'an expression used both as an argument and elsewhere, instance reused for a second FetchMatchingRules with other facts', 'other-rule', 'CLN-7 (of C09) reported it; clone fidelity added to C11'),
+ 'C11/b': ('7effe7d', 'pkg/reflectmath.go: int-vs-uint arms of the four ordering comparisons run in the unsigned domain', 'ordering comparison of a negative signed operand with an unsigned one in a when', 'other-rule', 'OPT-9/OPT-10 (of C19/C05) reported it; the evaluation core added to C01, C02, C03, C11'),
+ 'C12/a': ('7effe7d', 'ast/Serializer.go: new helper intToUint64 (returns 0 for negative input) used by the stream writers', 'rule with a negative salience, stored and loaded', 'caught', ''),
+ 'C12/b': ('7effe7d', 'ast/KnowledgeBase.go LoadKnowledgeBaseFromReader: registration folded into overwrite || !exist || len(existing.RuleEntries) == 0', 'library holds an empty placeholder for the stream\'s name/version and overwrite=false', 'caught', ''),
+}
+
 def main():
     root, conf = sys.argv[1], sys.argv[2]
-    for sid, (base, change, needs, fc, led) in sorted(T.items()):
+    rnd = int(sys.argv[3]) if len(sys.argv) > 3 else 2
+    table, suffix = (T, {'a': 'c', 'b': 'd'}) if rnd == 2 else (T3, {'a': 'e', 'b': 'f'})
+    for sid, (base, change, needs, fc, led) in sorted(table.items()):
         prop, ab = sid.split('/')
         src = os.path.join(root, prop, ab)
         cj = os.path.join(conf, prop + '_' + ab + '.json')
@@ -60,14 +80,14 @@ def main():
         ok = c.get('applies') == 'yes' and c.get('builds') == 'yes' and c.get('demo_with_patch_exit') != '0' and c.get('suite_with_patch_exit') == '0' and c.get('demo_without_patch_exit') == '0'
         if not ok:
             print('NOT CONFIRMED:', sid, c); continue
-        dst = os.path.join('/verif/seeded', prop + '_' + {'a': 'c', 'b': 'd'}[ab])
+        dst = os.path.join('/verif/seeded', prop + '_' + suffix[ab])
         os.makedirs(dst, exist_ok=True)
         for f in ('patch.diff', 'demo_test.go', 'notes.md'):
             if os.path.exists(os.path.join(src, f)):
                 shutil.copy(os.path.join(src, f), os.path.join(dst, f))
         mp = os.path.join(dst, 'meta.json')
         meta = json.load(open(mp)) if os.path.exists(mp) else {}
-        meta.update(dict(id=os.path.basename(dst), property=prop, round=2, base_commit=base,
+        meta.update(dict(id=os.path.basename(dst), property=prop, round=rnd, base_commit=base,
                          author='independent sub-agent given only the property text, the list of earlier seeds to avoid, and a scratch worktree',
                          change=change, needs_to_manifest=needs, first_contact=fc, led_to=led,
                          confirmed=dict(tool='tools/confirm_seed.sh (scratch worktree of the base commit, removed afterwards)', patch_applies=True, builds=True,
